@@ -47,8 +47,10 @@ CHECKS["C07"] = dict(
     technique="Rocq theorem (complete shape of handle_call) + dispatch correspondence with recording handlers",
     text="C07_contract: for every CALL either nothing is invoked, or exactly the handler of that action runs first with the "
          "snake_case payload and call_unique_id iff declared, no other handler runs, and the after-hook runs at most once, "
-         "with the same keywords, directly after the CALLRESULT. Tied by handlers of every shape on real endpoints, "
-         "including failing reply writes and reused handler names.",
+         "with the same keywords, directly after the CALLRESULT; C07_every_call_of_a_sequence: in the receive loop over any "
+         "frame list the i-th frame is followed by exactly the events it gives alone, whatever came before. Tied by handlers "
+         "of every shape on real endpoints (every action of both versions registered through its Action member), failing "
+         "reply writes, reused handler names, repeated frames and hook sequences on one endpoint.",
     note=DISPATCH_NOTE, design="4/C07")
 CHECKS["C16"] = dict(
     technique="Rocq theorems (non-interference of other routes; unchanged delivery) + dispatch/history correspondence",
